@@ -7,6 +7,7 @@ import RuxModel.Drv.Bind
 import RuxModel.Drv.Writer
 import RuxModel.Drv.Render
 import RuxModel.Drv.Static
+import RuxModel.Drv.Conc
 /-
   Line-protocol driver: `driver <engine>` reads op lines on stdin and answers one line per op.
   Lines starting with `#` are echoed (they separate cases and carry comments).
@@ -36,7 +37,8 @@ def engines : List (String × Engine) := [
   ("writer", writerEngine),
   ("render", renderEngine),
   ("clean", cleanEngine),
-  ("static", staticEngine)
+  ("static", staticEngine),
+  ("conc", concEngine)
 ]
 
 def main (args : List String) : IO UInt32 := do
